@@ -307,12 +307,16 @@ def run_case(case):
         return {"counters": C, "classes": sorted(classes), "violations": []}
     V = []
     anc, chi = quiescent(E, h, V, C, {"when": "after build"}, json_too=True)
+    f3_nets = set()
     for k in range(case["n_edits"]):
         if V:
             break
         e = h.propose()
+        sb = h.spec
         if h.apply(e) is not None:
             break
+        from .c01 import f3_networks
+        f3_nets |= f3_networks(sb, h.spec)
         anc, chi = quiescent(E, h, V, C, {"when": "after " + edits.describe(e), "history": h.log[-4:]})
     if not V and case["idx"] % 2 == 0:
         try:
@@ -345,6 +349,10 @@ def run_case(case):
     nt = False
     if not V:
         completeness(E, h, anc, V, C, rnd, case["tier"])
+        for v in V:
+            slot = tuple(v.get("calculated_slot") or ())
+            if f3_nets and len(slot) >= 2 and ((slot[0] in f3_nets and slot[1] == "energy_footprint") or slot[:2] == (h.spec["system"], "total_footprint")):
+                v["mechanism"] = "F3-network-of-jobless-pattern-not-recomputed"
         nt = C["perturbations_with_effect"] > 0
     V = V + (locals().get("V_known") or [])
     for v in V:
@@ -354,6 +362,9 @@ def run_case(case):
 
 
 def witness(fid):
+    if fid == "F3":
+        from .c01 import witness as w
+        return w(fid)
     if fid != "F24":
         return None
     from datetime import datetime, timezone
